@@ -824,7 +824,9 @@ pub fn check_c04(scn: &Value, rt: &tokio::runtime::Runtime) -> Report {
                 let want = if own {
                     json!({"received": [[kind, xname(e), iname(int(exp))]], "response": [own_x, k], "refused": false})
                 } else {
-                    json!({"received": [], "response": "none", "refused": true})
+                    // not this exchange's instrument: nothing may reach the client (today the manager
+                    // panics by design; what it tells the engine instead is not C04's business)
+                    json!({"received": [], "response": {"any": true}, "refused": {"any": true}})
                 };
                 rep.same(&format!("ExecutionManager[{ex}] <- {kind} request (ExchangeIndex({own_x}), InstrumentIndex({k}))"), &format!("manager:{c}"), &want, &got);
             }
@@ -955,7 +957,7 @@ fn project_map(rt: &tokio::runtime::Runtime, ix: &IndexedInstruments, ex: Exchan
         let out = drive_manager(rt, &map, ExecutionRequest::Open(req_open(own_x, k, "c1")));
         match (out.received.as_slice(), out.panic.is_some()) {
             ([(_, e, n)], false) => json!({"ok": true, "re": ex_rank(*e), "rn": ins_exc_rank(n), "back": out.response.map(|(_, n)| n as i64 + 1).unwrap_or(0)}),
-            ([], true) => json!({"ok": false, "re": 0, "rn": 0, "back": 0}),
+            ([], _) => json!({"ok": false, "re": 0, "rn": 0, "back": 0}),
             (r, p) => json!({"ok": false, "re": -1, "rn": r.len(), "back": if p { -1 } else { -2 }}),
         }
     }).collect();
@@ -1024,10 +1026,27 @@ pub fn main(focus: &str) {
             let scenarios = read_ndjson(args.req("scenarios"));
             let (mut failed, mut counts) = (0usize, BTreeMap::<String, u64>::new());
             for (n, scn) in scenarios.iter().enumerate() {
-                let rep = if focus == "C11" { check_c11(scn, &rt) } else { check_c04(scn, &rt) };
+                // a panic of the code under test outside the places where it is expected is a finding too
+                let rep = catch(|| if focus == "C11" { check_c11(scn, &rt) } else { check_c04(scn, &rt) }).unwrap_or_else(|p| {
+                    QUIET.store(false, Ordering::SeqCst);
+                    let mut rep = Report::default();
+                    rep.fail("panic", format!("the code under test panicked: {p}"));
+                    rep
+                });
                 for (k, v) in &rep.counts {
                     // aggregate per function, not per argument
-                    let key = k.split(['(', '[', ':']).next().unwrap_or(k).trim().to_string();
+                    let mut key = String::new();
+                    let mut depth = 0;
+                    for ch in k.chars() {
+                        match ch {
+                            '[' => depth += 1,
+                            ']' => depth -= 1,
+                            '(' | ':' if depth == 0 => break,
+                            c if depth == 0 => key.push(c),
+                            _ => {}
+                        }
+                    }
+                    let key = key.trim().to_string();
                     *counts.entry(key).or_insert(0) += v;
                 }
                 if !rep.errors.is_empty() { failed += 1; }
